@@ -712,6 +712,91 @@ pub fn secret_scan(a: &Args) -> Report {
   rep
 }
 
+/// `vh nonce-space --n N` (C03, "longer sequences"): N reports of ONE measurement under one epoch
+/// and threshold, from 16 threads, with pairwise different associated data.  Two of them encrypted
+/// under the same keystream agree on the encrypted constant prefix of the payload (length header
+/// and measurement); a per-ciphertext nonce with too little entropy shows up as such a pair long
+/// before 2^64 reports (a 32-bit nonce space: 99 % at 200 000).  Ciphertext windows of 12 bytes at
+/// the plausible header offsets are indexed; an accidental match has probability < 2^-60.
+pub fn nonce_space(a: &Args) -> Report {
+  let mut rep = Report::new("nonce-space");
+  let n = a.u64("n", 200_000) as usize;
+  let threads = 16usize;
+  let m: Vec<u8> = b"nonce-space-measurement!".to_vec();
+  let results: Vec<Vec<(Vec<u8>, [u8; 8])>> = std::thread::scope(|s| {
+    let hs: Vec<_> = (0..threads)
+      .map(|ti| {
+        let m = m.clone();
+        s.spawn(move || {
+          let mg = sta_rs::MessageGenerator::new(sta_rs::SingleMeasurement::new(&m), 2, b"epoch");
+          let mut rnd = [0u8; 32];
+          mg.sample_local_randomness(&mut rnd);
+          let mut out = Vec::with_capacity(n / threads + 1);
+          for i in 0..(n / threads) {
+            let aux = ((ti * 1_000_000 + i) as u64).to_le_bytes();
+            // every tenth report from a generator of its own (a fresh client), the others from one
+            let msg = if i % 10 == 0 {
+              let mg2 = sta_rs::MessageGenerator::new(sta_rs::SingleMeasurement::new(&m), 2, b"epoch");
+              sta_rs::Message::generate(&mg2, &rnd, Some(sta_rs::AssociatedData::new(&aux))).ok()
+            } else {
+              sta_rs::Message::generate(&mg, &rnd, Some(sta_rs::AssociatedData::new(&aux))).ok()
+            };
+            if let Some(msg) = msg {
+              out.push((msg.ciphertext.to_bytes(), aux));
+            }
+          }
+          out
+        })
+      })
+      .collect();
+    hs.into_iter().map(|h| h.join().unwrap_or_default()).collect()
+  });
+  let all: Vec<(Vec<u8>, [u8; 8])> = results.into_iter().flatten().collect();
+  let cts: Vec<&Vec<u8>> = all.iter().map(|(c, _)| c).collect();
+  rep.evaluations += cts.len() as u64;
+  let mut found = false;
+  for h in [0usize, 8, 12, 16, 24, 32] {
+    let mut seen: HashMap<Vec<u8>, usize> = HashMap::with_capacity(cts.len());
+    let mut candidates: Vec<(usize, usize)> = Vec::new();
+    for (i, ct) in cts.iter().enumerate() {
+      if ct.len() < h + 12 {
+        continue;
+      }
+      if let Some(j) = seen.insert(ct[h..h + 12].to_vec(), i) {
+        candidates.push((j, i));
+      }
+    }
+    // (a window on which MANY reports agree is a constant of the format, not a nonce)
+    if candidates.len() * 100 > cts.len() {
+      continue;
+    }
+    for (j, i) in candidates {
+      {
+        // same bytes on a window: confirm keystream reuse where the plaintexts differ — the
+        // 8-byte associated data: ct_j xor ct_i equals aux_j xor aux_i at some offset
+        let (a1, a2) = (cts[j], cts[i]);
+        let want: Vec<u8> = all[j].1.iter().zip(all[i].1.iter()).map(|(x, y)| x ^ y).collect();
+        let reuse = a1.len() == a2.len() && a1.len() >= 8
+          && (0..=a1.len() - 8).any(|o| (0..8).all(|k| a1[o + k] ^ a2[o + k] == want[k]));
+        if reuse {
+          rep.violation("C03", "Ciphertext::new", "keystream-reuse:nonce-space",
+            format!("reports #{j} and #{i} of {} reports of one measurement agree on the encrypted constant prefix (ciphertext offset {h}): they were encrypted under the same keystream", cts.len()),
+            json!({"reports": cts.len(), "first": j, "second": i, "offset": h}));
+          found = true;
+          break;
+        }
+      }
+    }
+    if found {
+      break;
+    }
+  }
+  rep.nontrivial(format!("nonce-space:{}", cts.len()));
+  rep.sample(json!({"reports_of_one_measurement": cts.len(), "threads": threads, "window_offsets": [0, 8, 12, 16, 24, 32]}));
+  rep.traces = 1;
+  rep
+}
+
 // ---------------------------------------------------------------------------
 /// `vh cipher-check --seed S --groups N` (C03): associated data stays confidential below
 /// threshold — not in clear, not decryptable with anything in the report, and no keystream
@@ -780,6 +865,24 @@ pub fn cipher_check(a: &Args) -> Report {
             share_bytes: msg.share.to_bytes(), ct: msg.ciphertext.to_bytes(), tag: msg.tag.clone(), key: None, rnd, msg_bytes: bytes,
           });
         }
+      }
+    }
+    // ... and a report of this measurement after a dozen reports of OTHER measurements on this
+    // thread (per-key nonce state that is evicted and restarts when the key comes back)
+    if src == "local" && !long_run && !cl.is_empty() {
+      for k in 0..12u8 {
+        let other: Vec<u8> = [m.as_slice(), &[0xee, k]].concat();
+        let _ = make_client(ClientCfg { m: other, e: e.clone(), t, aux: Some(vec![k; 9]), src: "local".into() }, &oprf, &mut rep);
+      }
+      let mut again = cl[0].cfg.aux.clone().unwrap_or_default();
+      if !again.is_empty() {
+        let n = again.len();
+        again[n / 2] ^= 0x3c;
+      } else {
+        again = vec![1, 2, 3];
+      }
+      if let Some(c) = make_client(ClientCfg { m: m.clone(), e: e.clone(), t, aux: Some(again), src: "local".into() }, &oprf, &mut rep) {
+        cl.push(c);
       }
     }
     // ... and reports of the same measurement produced on OTHER threads, each the first thing its
